@@ -8,6 +8,7 @@ CONSTANT MaxLoss = 0
 CONSTANT MaxSeq = 3
 CONSTANT FixedCancel = FALSE
 CONSTANT Limit <- NoLimit
+CONSTANT PowerLocked = TRUE
 INVARIANT TypeOK
 INVARIANT WriteByOwner
 INVARIANT TxnAtomic
